@@ -1,10 +1,10 @@
 #!/bin/bash
-# tools/round2.sh <Cxx> [features] : verify round-2 seeds of a property and run its check on each
-id=$1; feat=${2:-}
+# tools/roundn.sh <round> <Cxx> [features] : verify seeds of /tmp/seed<round>-<Cxx>/<k> and run the property's check on each
+r=$1; id=$2; feat=${3:-}
 cd /verif
 for k in 1 2 3; do
-  d=/tmp/seed2-$id/$k; [ -f $d/patch.diff ] || continue
-  n=$id-r2-$k
+  d=/tmp/seed$r-$id/$k; [ -f $d/patch.diff ] || continue
+  n=$id-r$r-$k
   [ -d seeded/$n ] || tools/verify_seed.sh $d $n $feat 2>&1 | grep RESULT | cut -c1-100
   [ -d seeded/$n ] && { echo "--- $n"; tools/trypatch.sh seeded/$n/patch.diff $id | grep "^  rule\|^  found\|^\[\|PATCH" | cut -c1-260; }
 done
